@@ -301,6 +301,9 @@ func reader(in *Input) io.Reader {
 const introspect = `{__schema{types{name kind description fields(includeDeprecated:true){name args{name defaultValue type{name kind ofType{name}}} type{name}} inputFields{name defaultValue} enumValues{name} interfaces{name} possibleTypes{name}} directives{name locations args{name defaultValue}}}}`
 
 // runBody executes the target on the input (no isolation; the caller adds watchdog and recover).
+// SDLNext separates successive documents in the text of an "sdl" input.
+const SDLNext = "\n##next-load##\n"
+
 func runBody(in *Input, out *Outcome) {
 	mark := func(s string) { out.Reached = append(out.Reached, s) }
 	switch in.Target {
@@ -308,6 +311,20 @@ func runBody(in *Input, out *Outcome) {
 		ggql.Sort = true
 		root := ggql.NewRoot(&RSchema{Query: newRQ(1)})
 		err := root.ParseReader(reader(in))
+		if parts := strings.Split(in.Text, SDLNext); len(parts) > 1 {
+			// several documents loaded one after the other into the same root, whatever each load says
+			// (a refused load must leave a root that can go on)
+			root = ggql.NewRoot(&RSchema{Query: newRQ(1)})
+			ok := 0
+			for _, part := range parts {
+				if err = root.ParseString(part); err == nil {
+					ok++
+				}
+			}
+			mark(fmt.Sprintf("sdl-loads-accepted=%d-of-%d", ok, len(parts)))
+			mark("past-first-token")
+			err = nil
+		}
 		if err != nil {
 			mark("sdl-rejected")
 			if !strings.Contains(err.Error(), " at 1:1") && !strings.Contains(err.Error(), "from 1:1") {
